@@ -1,5 +1,6 @@
 import Qvnt.Props.C17
 import Qvnt.Props.Code.C18
+import Qvnt.Props.Code.C17
 open Qvnt
 #print axioms C17_process_append
 #print axioms C17_delta_eq
@@ -19,3 +20,12 @@ open Qvnt
 #print axioms C18_code_error_exits_first
 #print axioms C18_code_add_ast
 #print axioms C18_code_new
+#print axioms addAllG_eq
+#print axioms C17_code_add_ast
+#print axioms C17_code_accept_iff
+#print axioms C17_code_err
+#print axioms processNodes_macrosInv
+#print axioms addAst_keysNodup
+#print axioms session_keysNodup
+#print axioms C12_code_session_total
+#print axioms C12_code_new_total
